@@ -8,6 +8,7 @@
 #include "core/type_inference.h"
 #include "evaluator/core/evaluator.h"
 #include "event_loop/simple_event_loop.h" // v0.12.0: バックグラウンドタスク実行
+#include "executors/assignments/const_check_helpers.h"
 #include "executors/assignments/member_assignment.h"
 #include "executors/assignments/simple_assignment.h"
 #include "executors/declarations/array_declaration.h"
@@ -762,6 +763,13 @@ void StatementExecutor::execute_self_member_assignment(
         error_msg(DebugMsgId::CONST_REASSIGN_ERROR, self_member_path.c_str());
         throw std::runtime_error("Cannot assign to const self member: " +
                                  member_name);
+    }
+
+    // self.r = n（構造体メンバー全体への代入）: self.r の中の初期化済みの
+    // const メンバーは上書きできない
+    if (self_member->is_struct) {
+        AssignmentHelpers::check_struct_store_over_const_members(
+            interpreter_, "self." + member_name, *self_member);
     }
 
     debug_msg(DebugMsgId::SELF_MEMBER_ACCESS_FOUND, member_name.c_str());
